@@ -3,7 +3,7 @@ From Coq Require Import List NArith Bool.
 From JV.lib Require Import Bytes.
 From JV.gen Require Import ScannerTable ScannerTyping.
 From JV.model Require Import ScannerSem TableCheck TriviaCheck.
-From JV.proofs Require Import TM_Events TM_Loop ScanTheorems TM_Trivia TriviaCover.
+From JV.proofs Require Import TM_Events TM_Loop ScanTheorems TM_Trivia TriviaCover KeywordSpell.
 Import ListNotations.
 
 (* the finite obligation: every (state, byte, reachable leaf) of the table regenerated from the
@@ -33,20 +33,37 @@ Theorem scanner_skip_spec_ok : trivia_ok gen_typing gen_skip = true.
 Proof. exact gen_trivia_ok. Qed.
 Print Assumptions scanner_skip_spec_ok.
 
-(* for every input and every sane schema library: when the scan reaches the end of the file with no lexeme half open
-   and no event pending, every byte of the input lies inside a lexeme or was consumed in a state that may skip it
-   (or is the '*' of the '*/' closing a multi-line annotation).  PARTIAL in its two side conditions, which are stated
-   about the final configuration and not yet derived: at table level no state accepts the end of the file with a lexeme
-   open (eof_never_leaves_a_lexeme_open_table below; until the repair 6fb0755 stateRegexBodyAfterSlash did, and a regex
-   body ending in a backslash at the end of the file was dropped without a diagnostic - found by this obligation). *)
+(* the third finite obligation: the events one dispatch (a step function call with its re-dispatches) emits.  A dispatch
+   that does not pass the end of the file emits, after the first completed lexeme, at most further completed lexemes
+   and then ONE Begin as the last event (so a Begin pending between calls of Next() is never followed by other pending
+   events); a Begin emitted on the end-of-file pseudo byte is placed AT the end of the file.  The phase typing gen_ph is
+   inferred by evaluation and only checked here. *)
+Theorem scanner_pending_events_ok : pend_ok gen_typing gen_ph = true.
+Proof. exact gen_pend_ok. Qed.
+Print Assumptions scanner_pending_events_ok.
+
+(* for every input and every sane schema library: when the scan reaches the end of the file, every byte of the input
+   lies inside a lexeme that was handed out, or was consumed in a state that may skip it (or is the '*' of the '*/'
+   closing a multi-line annotation).  No side condition: that no lexeme covering a byte is left open or pending at the
+   end of the file is derived (until the repair 6fb0755 stateRegexBodyAfterSlash accepted the end of the file with the
+   Text lexeme open, and a regex body ending in a backslash was dropped without a diagnostic - found by this obligation). *)
 Theorem no_content_dropped : forall jsc_len enum_len data,
   len_sane jsc_len -> len_sane enum_len -> Forall isb data ->
   forall lexs g, scan jsc_len enum_len data = (lexs, SEof, g) ->
-  estk g = [] -> finds g = [] ->
   forall p, p < N.of_nat (List.length data) ->
     (exists l, In l lexs /\ lb l <= p /\ p <= le l) \/ skipped jsc_len enum_len data p.
 Proof. exact no_content_dropped_lemma. Qed.
 Print Assumptions no_content_dropped.
+
+(* at the end of the file the event stack is empty, or holds one Begin placed AT the end of the file: the lexeme it
+   opens covers no byte (TriviaCover.lost_begin_at_eof_example: after "Description // x" at the very end of the file
+   the EMPTY Text lexeme is opened and never handed out; no byte is lost) *)
+Theorem eof_stack_covers_nothing : forall jsc_len enum_len data,
+  len_sane jsc_len -> len_sane enum_len -> Forall isb data ->
+  forall lexs g, scan jsc_len enum_len data = (lexs, SEof, g) ->
+  estk g = [] \/ exists e, estk g = [(e, N.of_nat (List.length data))].
+Proof. exact eof_stack_covers_nothing_lemma. Qed.
+Print Assumptions eof_stack_covers_nothing.
 
 (* a skipped byte is a blank, a line end, '#', '/' or '*', or it was consumed inside a comment *)
 Theorem skipped_is_trivia : forall jsc_len enum_len data p,
@@ -61,3 +78,14 @@ Print Assumptions skipped_is_trivia.
 Theorem eof_never_leaves_a_lexeme_open_table : eof_open_states gen_typing gen_skip = [].
 Proof. exact eof_open_states_table_partial. Qed.
 Print Assumptions eof_never_leaves_a_lexeme_open_table.
+
+(* every keyword lexeme spells a directive the directive table knows - TABLE LEVEL (PARTIAL: not lifted to runs of the
+   semantics).  Walking the keyword states from every leaf that emits KeywordBegin (always [foundAt(cur, KeywordBegin);
+   step = t]) along the leaves that only move to another state, to the leaves that emit KeywordEnd (always first, at
+   the current byte): (1) the strings spelled are EXACTLY the keywords of directive.Enumeration (all but the
+   pseudo-keyword HTTP-response-code) and the three-digit codes 100..599 of directive/http_response_code.go;
+   (2) KeywordEnd is emitted by no other state and those states reject the end of the file; (3) the states walked are
+   exactly the states in which the typing has a Keyword lexeme open. *)
+Theorem keywords_spelled_table : kw_exact = true /\ kw_end_only_there = true /\ kw_states_agree = true.
+Proof. exact keywords_spelled_table_partial. Qed.
+Print Assumptions keywords_spelled_table.
